@@ -234,6 +234,21 @@ func GetAttrString(self Object, key string) (res Object, err error) {
 		}
 	}
 
+	// A class looks the attribute up in its own dictionary and then
+	// along its own MRO (before its metatype is consulted), and binds
+	// what it finds with __get__(None, class): classmethods bind the
+	// class, staticmethods and functions are returned plain.
+	// (Instances of Python classes are *Type values too, but have no MRO.)
+	if t, ok := self.(*Type); ok && t.Mro != nil {
+		if res = t.NativeGetAttrOrNil(key); res != nil {
+			switch d := res.(type) {
+			case *Function, *ClassMethod, *StaticMethod, *Method:
+				return d.(I__get__).M__get__(None, t)
+			}
+			return res, nil
+		}
+	}
+
 	// Look in the instance dictionary if it exists
 	if I, ok := self.(IGetDict); ok {
 		dict := I.GetDict()
